@@ -143,7 +143,7 @@ func VerifC10Peer() {
 	delivered := 0
 	ex := &ParSigEx{
 		verifyFunc: verify,
-		gaterFunc:  func(d core.Duty) bool { return d.Slot < 200 },
+		gaterFunc:  func(d core.Duty) bool { return d.Type.Valid() && d.Slot < 200 },
 		subs: []func(context.Context, core.Duty, core.ParSignedDataSet) error{func(context.Context, core.Duty, core.ParSignedDataSet) error {
 			delivered++
 			return nil
@@ -161,6 +161,7 @@ func VerifC10Peer() {
 	content, epoch := vrt.Byte("content"), uint64(vrt.Byte("epoch"))
 	dom := vDomName(vrt.Byte("domain"))
 	slot := uint64(vrt.Byte("slot"))
+	dtyp := int32(vrt.Byte("dutytype")) // any duty type, valid or not: the duty window applies to every one of them
 	// what the signature was actually made over, and with which key
 	sKey, sContent, sEpoch := vrt.Byte("signKey"), vrt.Byte("signContent"), uint64(vrt.Byte("signEpoch"))
 	sDom := vDomName(vrt.Byte("signDomain"))
@@ -194,7 +195,7 @@ func VerifC10Peer() {
 		}
 		vSet[vPkB] = core.ParSignedData{SignedData: vE2{Content: 7, Ep: 0, Dom: signing.DomainRandao, Sig: sig2}, ShareIdx: 1}
 	}
-	_, _, errH := ex.handle(context.Background(), "", &pbv1.ParSigExMsg{Duty: &pbv1.Duty{Slot: slot, Type: int32(core.DutyAttester)}, DataSet: &pbv1.ParSignedDataSet{}})
+	_, _, errH := ex.handle(context.Background(), "", &pbv1.ParSigExMsg{Duty: &pbv1.Duty{Slot: slot, Type: dtyp}, DataSet: &pbv1.ParSignedDataSet{}})
 	// oracle
 	known := which%3 != 2
 	inLock := shareIdx >= 1 && shareIdx <= n
@@ -203,7 +204,7 @@ func VerifC10Peer() {
 		wantKey = byte(10*(int(which%3)+1) + shareIdx)
 	}
 	sameFork := (epoch >= 100) == (sEpoch >= 100)
-	valid := slot < 200 && known && inLock && sig[0] == 1 && sKey == wantKey && sContent == content && sDom == dom && sameFork && !epErr && secondValid
+	valid := slot < 200 && dtyp >= 1 && dtyp <= 13 && known && inLock && sig[0] == 1 && sKey == wantKey && sContent == content && sDom == dom && sameFork && !epErr && secondValid
 	vrt.Assert("a partial signature is admitted exactly when it verifies for the object's own root, domain and epoch under the claimed share's public key, for an allowed duty",
 		(errH == nil) == valid)
 	vrt.Assert("subscribers see the set exactly when it was admitted", (delivered == 1) == (errH == nil) && delivered <= 1)
@@ -233,7 +234,7 @@ func VerifC10Randao() {
 	delivered := 0
 	ex := &ParSigEx{
 		verifyFunc: verify,
-		gaterFunc:  func(d core.Duty) bool { return d.Slot < 200 },
+		gaterFunc:  func(d core.Duty) bool { return d.Type.Valid() && d.Slot < 200 },
 		subs: []func(context.Context, core.Duty, core.ParSignedDataSet) error{func(context.Context, core.Duty, core.ParSignedDataSet) error {
 			delivered++
 			return nil
@@ -250,10 +251,17 @@ func VerifC10Randao() {
 	epoch := uint64(vrt.Byte("epoch"))
 	slot := uint64(vrt.Byte("slot"))
 	sKey, sEpoch, sForkEpoch := vrt.Byte("signKey"), uint64(vrt.Byte("signEpoch")), uint64(vrt.Byte("signForkEpoch"))
-	// what was signed: the randao object of sEpoch, under the domain at sForkEpoch
+	// "exit"=1: the same question for a voluntary exit, a duty type that never expires (the duty window still applies)
+	exit := vrt.Param("exit") == 1
+	dutyType, domName := core.DutyRandao, signing.DomainRandao
+	// what was signed: the randao object (or the exit message) of sEpoch, under the domain at sForkEpoch
 	sRoot, errR := core.NewSignedRandao(eth2p0.Epoch(sEpoch), eth2p0.BLSSignature{}).MessageRoot()
+	if exit {
+		dutyType, domName = core.DutyExit, signing.DomainExit
+		sRoot, errR = (&eth2p0.VoluntaryExit{Epoch: eth2p0.Epoch(sEpoch), ValidatorIndex: 3}).HashTreeRoot()
+	}
 	vrt.Assert("message root computable", errR == nil)
-	signedData, errD := signing.GetDataRoot(context.Background(), cl, signing.DomainRandao, eth2p0.Epoch(sForkEpoch), sRoot)
+	signedData, errD := signing.GetDataRoot(context.Background(), cl, domName, eth2p0.Epoch(sForkEpoch), sRoot)
 	vrt.Assert("signing root computable", errD == nil)
 	var sig eth2p0.BLSSignature
 	sig[0], sig[1] = vrt.Byte("sigKind"), sKey
@@ -261,6 +269,9 @@ func VerifC10Randao() {
 		sig[2+i] = signedData[i]
 	}
 	vSet = core.ParSignedDataSet{pk: core.NewPartialSignedRandao(eth2p0.Epoch(epoch), sig, shareIdx)}
+	if exit {
+		vSet = core.ParSignedDataSet{pk: core.NewPartialSignedVoluntaryExit(&eth2p0.SignedVoluntaryExit{Message: &eth2p0.VoluntaryExit{Epoch: eth2p0.Epoch(epoch), ValidatorIndex: 3}, Signature: sig}, shareIdx)}
+	}
 	ds := &pbv1.ParSignedDataSet{}
 	if !vrt.Symbolic() {
 		var errP error
@@ -269,7 +280,7 @@ func VerifC10Randao() {
 			panic(errP)
 		}
 	}
-	_, _, errH := ex.handle(context.Background(), "", &pbv1.ParSigExMsg{Duty: &pbv1.Duty{Slot: slot, Type: int32(core.DutyRandao)}, DataSet: ds})
+	_, _, errH := ex.handle(context.Background(), "", &pbv1.ParSigExMsg{Duty: &pbv1.Duty{Slot: slot, Type: int32(dutyType)}, DataSet: ds})
 	known := which%3 != 2
 	inLock := shareIdx >= 1 && shareIdx <= n
 	wantKey := byte(0)
